@@ -339,7 +339,27 @@ def rule_table_decorators(model):
     return r
 
 
-RULES_PLAIN = [rule_sinks, rule_table_decorators]
+def rule_modifier_identity(model):
+    """C15.R3's wrapper clause, as a necessary condition of C04: the
+    taint analysis of the modifier loop is an analysis of the table
+    functions; it says nothing about callables manufactured around them."""
+    from .c15 import rule_table
+    r3 = [x for x in rule_table(model) if x.rule == 'C15.R3'][0]
+    r = RuleResult('C04.R5', 'the modifiers a var tag applies are the table '
+                   'functions themselves (recognised by name, summarised by '
+                   'the taint analysis), never new callables wrapped '
+                   'around them')
+    for inst in r3.instances:
+        r.instance(inst['where'], inst['construct'], inst['verdict'])
+    for f in r3.findings:
+        if 'wrapping' in f.message:
+            g = r.finding(f.where, f.construct, f.message)
+            g.lineno, g.file = f.lineno, f.file
+    r.require_floor(1)
+    return r
+
+
+RULES_PLAIN = [rule_sinks, rule_table_decorators, rule_modifier_identity]
 RULES = [_inl(r_) for r_ in RULES_PLAIN] if INLINED_VIEW else RULES_PLAIN
 EXPLANATION = (
     'Inter-procedural, path-sensitive taint analysis of the dtml-var '
